@@ -38,8 +38,10 @@ type forExpander struct {
 
 	symbols map[string][]token
 
-	// values of symbols resolved for the FOR counts seen so far
-	resolved map[string][]token
+	// values of symbols resolved for the FOR counts seen so far, and how
+	// many more tokens they may take
+	resolved       map[string][]token
+	resolvedBudget int
 	// symbols whose values could not be resolved although every name they
 	// lead to is defined: for good, since values never change
 	failedSymbols map[string]error
@@ -58,7 +60,7 @@ func newForExpander(lex tokenReader, symbols map[string][]token) *forExpander {
 		symbols = make(map[string][]token)
 	}
 	f := &forExpander{lex: lex, symbols: symbols, resolved: make(map[string][]token),
-		failedSymbols: make(map[string]error), symbolBlocker: make(map[string]string)}
+		failedSymbols: make(map[string]error), symbolBlocker: make(map[string]string), resolvedBudget: maxSymbolTableTokens}
 	f.next()
 	f.tokens = make(chan token)
 	go f.run()
@@ -312,7 +314,7 @@ func forFor(f *forExpander) forStateFn {
 	}
 	f.exprBuf = expr
 
-	val, err := expandAndEvaluate(f.exprBuf, f.symbols, f.resolved, nil)
+	val, err := expandAndEvaluate(f.exprBuf, f.symbols, f.resolved, nil, &f.resolvedBudget)
 	if err != nil {
 		f.tokens <- token{tokError, fmt.Sprintf("%s", err)}
 		return nil
@@ -663,7 +665,7 @@ func (f *forExpander) recordEqus(body []token, subst map[string]string, depth in
 				// expands the block will tell
 				continue
 			}
-			count, err := expandAndEvaluate(countExpr, f.symbols, f.resolved, f.failedSymbols)
+			count, err := expandAndEvaluate(countExpr, f.symbols, f.resolved, f.failedSymbols, &f.resolvedBudget)
 			if err != nil {
 				continue
 			}
